@@ -1,6 +1,7 @@
 package props
 
 import (
+	"os"
 	"fmt"
 	"go/token"
 	"go/types"
@@ -90,6 +91,82 @@ func c10(c *Ctx) {
 			r.Add("BITS.reader", "codecs.(*H264Payloader).Payload", "unit-type dispatch of the payloader: equality tests with {7,8,9,12} only (dropped types: AUD 9, filler 12)",
 				p.Position(anon.Pos()), len(other) == 0 && len(eq) == 4 && eq[0] == 7 && eq[1] == 8 && eq[2] == 9 && eq[3] == 12,
 				"type tests: == "+u64s(eq)+" ; range tests: "+stringsJoin(other))
+		}
+	}
+	// nothing is emitted for an access unit delimiter or filler unit, whatever else is pending: on every
+	// path of the per-unit callback that reaches an append of a fragment, the type has been compared with
+	// 9 and with 12 and found different (the drop test comes before the STAP-A flush of held parameter sets)
+	if pf := p.Func("codecs.(*H264Payloader).Payload"); pf != nil {
+		for _, anon := range pf.AnonFuncs {
+			if len(anon.Params) != 1 {
+				continue
+			}
+			ma := bits.Run(p, anon)
+			typeConst := func(cond ssa.Value) (uint64, bool, bool) { // const, equality?, is a type test
+				ci, ok := ma.Cmps[cond]
+				if !ok || !vecMatches(ci.Vec, "0 0 0 $p[0].4-0") {
+					return 0, false, false
+				}
+				return ci.Const, ci.Op == token.EQL, ci.Op == token.EQL || ci.Op == token.NEQ
+			}
+			bad := ""
+			type st struct{ not9, not12 bool }
+			seen := map[string]bool{}
+			var walk func(b, from *ssa.BasicBlock, s st)
+			walk = func(b, from *ssa.BasicBlock, s st) {
+				fi := -1
+				if from != nil {
+					fi = from.Index
+				}
+				key := fmt.Sprintf("%d|%d|%v|%v", b.Index, fi, s.not9, s.not12)
+				if seen[key] || bad != "" {
+					return
+				}
+				seen[key] = true
+				for _, in := range b.Instrs {
+					switch x := in.(type) {
+					case *ssa.Call:
+						if core.BuiltinName(x) == "append" && len(x.Call.Args) == 2 {
+							if isSliceOfSlices(x.Call.Args[0].Type()) && !(s.not9 && s.not12) {
+								bad = p.Position(x.Pos())
+								return
+							}
+						}
+					case *ssa.If:
+						// `a || b` in a case is built as a phi of the constant true and b: resolve it for the edge taken
+						cond, constKnown, constVal := condVia(x.Cond, from)
+						k, isEq, isType := typeConst(cond)
+						for i, succ := range b.Succs {
+							if constKnown && (i == 0) != constVal {
+								continue
+							}
+							ns := s
+							if !constKnown && isType && (k == 9 || k == 12) {
+								differs := (i == 1) == isEq // false edge of ==, true edge of !=
+								if differs {
+									if k == 9 {
+										ns.not9 = true
+									} else {
+										ns.not12 = true
+									}
+								}
+							}
+							walk(succ, b, ns)
+						}
+						return
+					case *ssa.Jump:
+						walk(b.Succs[0], b, s)
+						return
+					}
+				}
+			}
+			if os.Getenv("RTPCHECK_DEBUG") == "drop" {
+				anon.WriteTo(os.Stdout)
+			}
+			walk(anon.Blocks[0], nil, st{})
+			n++
+			r.Add("STRUCT.drop", "codecs.(*H264Payloader).Payload", "no fragment is appended before the unit type has been found to be neither AUD (9) nor filler (12)", p.Position(anon.Pos()), bad == "",
+				"the append at "+bad+" is reachable on a path that has not excluded the types 9 and 12")
 		}
 	}
 	r.Floor("H264 layout rows", n, 7)
